@@ -225,10 +225,12 @@ def observe(trimesh, it):
         if len(g0.vertices) != len(Q) or len(g0.faces) != len(F) or len(g0.referenced_vertices) != len(Q) \
                 or not g0.referenced_vertices.all():
             raise MachineryError("Trimesh(process=False) did not keep the input arrays")
+    lean = it.get("lean", False)     # bulk families: one API per kind
     # ---- hull
     r = new("hull")
     guarded(r, "convex_hull", lambda: hull_obs("ch", CV.convex_hull(Q.copy() if it["faces"] is None else geo()), it, pl))
-    guarded(r, tag + ".convex_hull", lambda: hull_obs(tag, geo().convex_hull, it, pl))
+    if not lean:
+        guarded(r, tag + ".convex_hull", lambda: hull_obs(tag, geo().convex_hull, it, pl))
     # ---- axis aligned box
     r = new("aabb")
     guarded(r, tag + ".bounds", lambda: aabb_obs(tag, geo(), pl))
@@ -246,8 +248,9 @@ def observe(trimesh, it):
         M = g.apply_obb()
         return box_obs("apply", M, ext, pl, 3, newv=np.asarray(g.vertices))
 
-    guarded(r, tag + ".bounding_box_oriented", prim)
-    guarded(r, tag + ".apply_obb", applied)
+    if not lean:
+        guarded(r, tag + ".bounding_box_oriented", prim)
+        guarded(r, tag + ".apply_obb", applied)
     # ---- sphere
     r = new("sphere")
     guarded(r, "minimum_nsphere", lambda: sphere_obs("mn", *NS.minimum_nsphere(Q.copy()), pl, 3))
@@ -256,7 +259,8 @@ def observe(trimesh, it):
         p = geo().bounding_sphere.primitive
         return sphere_obs(tag, p.center, p.radius, pl, 3)
 
-    guarded(r, tag + ".bounding_sphere", bsphere)
+    if not lean:
+        guarded(r, tag + ".bounding_sphere", bsphere)
     # ---- cylinder
     if it["cyl"]:
         r = new("cyl")
@@ -523,20 +527,20 @@ def placements(rs, d, how_many):
 def work_items(tier):
     rs = np.random.RandomState(seed() + 1616)
     big = tier == "thorough"
-    m = 30 if big else 1
+    m = 12 if big else 1
     counts = {"random": 190 * m, "block": 50 * m, "slab": 6 * m, "cluster": 50 * m, "flat": 60 * m,
               "generic": 100 * m, "ties": 60 * m, "dups": 16 * m}
     pcounts = {"planar_random": 60 * m, "planar_generic": 60 * m, "planar_block": 20 * m}
     items = []
     base = 0
 
-    def add(fam, dim, pts, faces, nplace):
+    def add(fam, dim, pts, faces, nplace, lean=False):
         nonlocal base
         for name, off, sc in placements(rs, dim, nplace):
             k = len(items)
             items.append({"k": k, "base": base, "family": fam, "dim": dim, "pts": pts, "faces": faces,
-                          "place": name, "off": off, "sc": sc,
-                          "cyl": dim == 3 and (faces is not None or k % 5 == 0), "sane": k % 8 == 0})
+                          "place": name, "off": off, "sc": sc, "lean": lean,
+                          "cyl": dim == 3 and not lean and (faces is not None or k % 5 == 0), "sane": k % 8 == 0})
         base += 1
 
     for fam, P in point_families(rs, counts):
@@ -546,6 +550,13 @@ def work_items(tier):
             add("mesh_" + name, 3, verts, faces, 4 if big else 2)
     for fam, P in planar_families(rs, pcounts):
         add(fam, 2, P, None, 2 if big else 1)
+    if big:
+        # every 4- and 5-point subset of {0,1,2}^3 that spans three dimensions (every fourth also far away)
+        grid = [p for p in GRID3 if max(p) <= 2]
+        for n in (4, 5):
+            for j, S in enumerate(itertools.combinations(grid, n)):
+                if spans(S, 3):
+                    add("all_%d_subsets_of_grid3" % n, 3, list(S), None, 1 if j % 4 == 0 else 0, lean=True)
     return items
 
 
@@ -578,7 +589,7 @@ def main(argv):
     fam, kinds, apis, places, notes, stats = {}, {}, {}, {}, {}, {}
     samples = []
     bump = lambda d, k, n=1: d.__setitem__(k, d.get(k, 0) + n)
-    round_size = 4000
+    round_size = 12000 if tier == "thorough" else 4000
     scratch = "c16/run_%d" % os.getpid()      # concurrent runs (bin/try_patch) must not share shard directories
     for r0 in range(0, len(items), round_size):
         part = items[r0:r0 + round_size]
@@ -640,11 +651,12 @@ def main(argv):
                     samples.append({k: v for k, v in pick[len(pick) // 3].items() if k not in ("id", "item")})
     shutil.rmtree(os.path.join(WORK, scratch), ignore_errors=True)
     decided = sum(v for k, v in notes.items() if "minimal_ball_decided" in k)
-    if not replay:
+    if not replay and not V.violations and not V.known_hits:
+        # nothing was rejected: make sure the interesting situations were really met
         if kinds.get("hull", 0) < 800 or kinds.get("cyl", 0) < 100 or kinds.get("obb", 0) < 800 \
                 or kinds.get("sphere", 0) < 800 or stats.get("hulls_with_an_input_that_is_no_vertex", 0) < 100:
             raise MachineryError(f"enumeration nearly empty: {kinds} {stats}")
-        if not V.violations and not V.known_hits and decided < 100:
+        if decided < 100:
             raise MachineryError(f"minimality clause decided on {decided} records only: {notes}")
     cov = {
         "states": states, "transitions": states,
@@ -658,7 +670,9 @@ def main(argv):
         "exercised": stats,
         "sphere_records_accepted_by_tlc": notes,
         "rejected": nrej,
-        "exhaustive": False,
+        "exhaustive": tier == "thorough",
+        "exhaustive_scopes": (["every 4- and 5-point subset of {0,1,2}^3 spanning three dimensions (hull, bounds, oriented "
+                               "box, sphere; at the origin, every fourth also far away)"] if tier == "thorough" else []),
         "tlc_wall_s": round(wall, 1),
         "samples": samples[:4],
     }
